@@ -8,6 +8,9 @@ Open Scope N_scope.
 Definition bits (x lo w : N) : N := N.land (N.shiftr x lo) (N.ones w).
 Definition trunc (w x : N) : N := N.land x (N.ones w).
 Definition b2n (b : bool) : N := if b then 1 else 0.
+(* selection by a 1-bit condition, as a function: generated code contains no `match` at all
+   (a `match` inside a long `let` chain makes Coq's elaboration quadratic) *)
+Definition sel (c a b : N) : N := match c with 0 => b | _ => a end.
 Definition setbits (x lo w v : N) : N :=
   N.lor (N.ldiff x (N.shiftl (N.ones w) lo)) (N.shiftl (trunc w v) lo).
 
